@@ -2119,20 +2119,13 @@ impl Ord for OwnedTerm {
                         _ => Ordering::Equal,
                     }
                 }
-                (OwnedTerm::Binary(a), OwnedTerm::Binary(b)) => a.cmp(b),
-                (OwnedTerm::String(a), OwnedTerm::String(b)) => a.cmp(b),
-                (OwnedTerm::Binary(a), OwnedTerm::String(b)) => a.as_slice().cmp(b.as_bytes()),
-                (OwnedTerm::String(a), OwnedTerm::Binary(b)) => a.as_bytes().cmp(b.as_slice()),
-                (
-                    OwnedTerm::BitBinary {
-                        bytes: a,
-                        bits: abits,
-                    },
-                    OwnedTerm::BitBinary {
-                        bytes: b,
-                        bits: bbits,
-                    },
-                ) => a.cmp(b).then_with(|| abits.cmp(bbits)),
+                // binaries, strings and bit-strings share one rank and compare bit-wise
+                (a, b) if bit_parts(a).is_some() && bit_parts(b).is_some() => {
+                    match (bit_parts(a), bit_parts(b)) {
+                        (Some((ab, an)), Some((bb, bn))) => ab.cmp(bb).then_with(|| an.cmp(&bn)),
+                        _ => Ordering::Equal,
+                    }
+                }
                 _ => Ordering::Equal,
             },
             other => other,
@@ -2700,6 +2693,16 @@ fn compare_tail_with_rest(
                 }
             }
         },
+    }
+}
+
+/// Bytes and number of significant bits in the last byte of a bit-string-rank term.
+fn bit_parts(t: &OwnedTerm) -> Option<(&[u8], u8)> {
+    match t {
+        OwnedTerm::Binary(bytes) => Some((bytes, 8)),
+        OwnedTerm::String(s) => Some((s.as_bytes(), 8)),
+        OwnedTerm::BitBinary { bytes, bits } => Some((bytes, *bits)),
+        _ => None,
     }
 }
 
